@@ -289,6 +289,47 @@ def rule_MP(run: Run) -> RuleResult:
     return res
 
 
+def _picked_element(handler: ast.ExceptHandler, key: ast.expr, exc: str):
+    """How the reported key is picked from the caught exception's arguments: (ok, why) when the expression is an element of
+    a tuple display built around ``*exc.args`` (directly, or through ``first, *_ = (…)``), None for any other form."""
+    def is_args(x):
+        return isinstance(x, ast.Attribute) and x.attr == "args" and isinstance(x.value, ast.Name) and x.value.id == exc
+    tup, idx = None, None
+    if isinstance(key, ast.Subscript):
+        try:
+            iv = ast.literal_eval(key.slice)
+        except Exception:
+            iv = None
+        if isinstance(iv, int):
+            tup, idx = key.value, iv
+    elif isinstance(key, ast.Name):
+        for s_ in ast.walk(handler):
+            if isinstance(s_, ast.Assign) and len(s_.targets) == 1 and isinstance(s_.targets[0], (ast.Tuple, ast.List)):
+                elts = s_.targets[0].elts
+                for i_, t_ in enumerate(elts):
+                    if isinstance(t_, ast.Name) and t_.id == key.id:
+                        if any(isinstance(x, ast.Starred) for x in elts[:i_]):
+                            tup, idx = s_.value, i_ - len(elts)     # counted from the end
+                        else:
+                            tup, idx = s_.value, i_
+            elif isinstance(s_, ast.Assign) and len(s_.targets) == 1 and isinstance(s_.targets[0], ast.Name) and s_.targets[0].id == key.id:
+                return _picked_element(handler, s_.value, exc)
+    if isinstance(key, ast.Subscript) and tup is None:
+        return None
+    if tup is None:
+        return None
+    if is_args(tup):
+        return (idx == 0, f"element {idx} of {exc}.args")
+    if isinstance(tup, ast.Tuple) and any(isinstance(x, ast.Starred) and is_args(x.value) for x in tup.elts):
+        first_is_args = isinstance(tup.elts[0], ast.Starred) and is_args(tup.elts[0].value)
+        if idx != 0:
+            return (False, f"element {idx} of {ast.unparse(tup)} is not the missing key (the fall-back is picked even when the KeyError names the key)")
+        if not first_is_args:
+            return (False, f"{ast.unparse(tup)}[0] is the fall-back, never the key the KeyError names")
+        return (True, "")
+    return None
+
+
 def _derived_from(block: ast.AST, seed: str) -> set:
     """Names of the block whose value is computed from ``seed`` (plain, tuple and starred assignment targets,
     walrus), to a fixed point."""
@@ -318,6 +359,7 @@ def rule_KN(run: Run) -> RuleResult:
     repo = run.repo
     nec = "a missing option must be reported with its key and the object that needed it (C04, C12)"
     n = 0
+    detail_kn = ""
     for m, cls, fn, q in iter_functions(repo):
         for r in astu.walk_no_nested(fn):
             if isinstance(r, ast.Raise) and isinstance(r.exc, ast.Call) and astu.short_name(r.exc) == "KeyNotFoundError":
@@ -333,7 +375,14 @@ def rule_KN(run: Run) -> RuleResult:
                     ok = h is not None and h.name is not None and any(astu.contains_name(a[0], d_) for d_ in _derived_from(h, h.name))
                     if ok and r.cause is None:
                         ok = False
-                res.add(f"{q}:raise KeyNotFoundError names key and source", ok, m.relpath, r.lineno, ast.unparse(r)[:100], nec)
+                    if ok:
+                        # the caught KeyError's own key when it has one, a fall-back otherwise: element 0 of (*e.args, fallback)
+                        pick = _picked_element(h, a[0], h.name)
+                        if pick is not None and not pick[0]:
+                            ok = False
+                            detail_kn = pick[1]
+                res.add(f"{q}:raise KeyNotFoundError names key and source", ok, m.relpath, r.lineno, (detail_kn + ": " if not ok and detail_kn else "") + ast.unparse(r)[:100], nec)
+                detail_kn = ""
     if n < 4:
         raise AnalysisError(f"only {n} KeyNotFoundError raise sites found")
     # every raise of an EvaluationError subclass hands a node where the constructor expects the source / an
